@@ -242,6 +242,26 @@ def gen_failing_middle_scenario(rng, base, idx):
     return [root], reqs, [None] * 5, [[0, 1, 2, 0, 1], [2, 0, 1], [0, 2, 0]]
 
 
+def gen_multivalue_repeat_scenario(rng, base, idx):
+    """instance attributes of a class in a cached project module with several assigned values,
+    also defined through each other: the identical request twice (and interleaved) on one Project"""
+    root = os.path.join(base, 'mvr%d' % idx)
+    os.makedirs(root)
+    h, t = rng.choice([('head', 'tail'), ('left', 'right'), ('first', 'rest')])
+    open(os.path.join(root, 'chain.py'), 'w').write(
+        'class C(object):\n    dd = 1\n    def cc(self):\n        pass\nclass B(object):\n    b = C()\n    def bb(self):\n        pass\n'
+        'class A(object):\n    aa = 1\n'
+        'class K(object):\n    def __init__(self):\n        self.%(h)s = self.%(t)s.a\n        self.%(h)s = B()\n        self.%(t)s = self.%(h)s.b\n'
+        '        self.multi = A()\n    def other(self):\n        self.multi = B()\n' % {'h': h, 't': t})
+    fn = os.path.join(root, 'main.py')
+    reqs = []
+    for attr in (h, t, 'multi'):
+        src = 'import chain\no = chain.K()\no.%s.\n' % attr
+        reqs.append(['assist', src, [3, len(attr) + 3], fn])
+    reqs.append(['location', 'import chain\no = chain.K()\no.multi.bb\n', [3, 10], fn])
+    return [root], reqs, [None] * 4, [[0, 0, 0], [1, 1], [2, 2, 2], [3, 3], [0, 1, 0, 1], [1, 0, 1, 0], [2, 0, 2, 1]]
+
+
 def gen_instance_class_scenario(rng, base, idx):
     """class of a cached project module with attributes assigned through self: a request about an
     instance, then about the class, on one Project vs a fresh one"""
@@ -383,7 +403,8 @@ def project_scenarios(ctx, nproc):
         jobs.append({'roots': [root], 'requests': reqs})
         meta.append(('bases', exps))
         ctx.histogram('scenario', 'bases')
-    for name, gen in (('failing-middle', gen_failing_middle_scenario), ('instance-class', gen_instance_class_scenario)):
+    for name, gen in (('failing-middle', gen_failing_middle_scenario), ('instance-class', gen_instance_class_scenario),
+                      ('multivalue-repeat', gen_multivalue_repeat_scenario)):
         for i in range(ctx.pick(4, 40)):
             roots, reqs, exps, shared = gen(ctx.rng, base, i)
             jobs.append({'roots': roots, 'requests': reqs, 'shared': shared})
